@@ -335,3 +335,33 @@ Proof.
   split; [repeat split; try (cbn; lia); repeat constructor|].
   vm_compute. repeat split.
 Qed.
+
+(* ---------- zero85> on a final group of five padding marks (repair of D39) ----------
+   The z85 crate computes `4 - diff` for the number of padding marks of the last group and panics for five of
+   them; `zero85>` refuses such a text before calling the crate.  [z85_decode] is the guarded decoder the word
+   uses, [z85_crate_decode] the crate's. *)
+Theorem C18_z85_guard_excludes_underflow : forall X a b c e f,
+  ends_hash5 (X ++ [a; b; c; e; f]) = false -> (count_lead_hash [a; b; c; e; f] <= 4)%nat.
+Proof. exact z85_guard_excludes_underflow. Qed.
+Check C18_z85_guard_excludes_underflow : forall X a b c e f,
+  ends_hash5 (X ++ [a; b; c; e; f]) = false -> (count_lead_hash [a; b; c; e; f] <= 4)%nat.
+
+Theorem C18_z85_guard_is_needed :
+  ends_hash5 [35; 35; 35; 35; 35]%N = true /\ count_lead_hash [35; 35; 35; 35; 35]%N = 5%nat.
+Proof. exact z85_guard_is_needed. Qed.
+Check C18_z85_guard_is_needed :
+  ends_hash5 [35; 35; 35; 35; 35]%N = true /\ count_lead_hash [35; 35; 35; 35; 35]%N = 5%nat.
+
+(* the guard never refuses what the encoder produces, so the round trip above is unaffected by it *)
+Theorem C18_z85_encode_passes_guard : forall d, is_bytes d -> ends_hash5 (z85_encode d) = false.
+Proof. exact z85_encode_not_hash5. Qed.
+Check C18_z85_encode_passes_guard : forall d, is_bytes d -> ends_hash5 (z85_encode d) = false.
+
+Theorem C18_z85_guarded_is_crate : forall d, ends_hash5 d = false -> z85_decode d = z85_crate_decode d.
+Proof. intros d H. unfold z85_decode. rewrite H. reflexivity. Qed.
+Check C18_z85_guarded_is_crate : forall d, ends_hash5 d = false -> z85_decode d = z85_crate_decode d.
+
+Example C18_padding_only_is_refused :
+  z85_decode [35; 35; 35; 35; 35]%N = None /\ z85_decode [48; 48; 48; 48; 48; 35; 35; 35; 35; 35]%N = None /\
+  z85_decode [35; 35; 35; 48; 49]%N = Some [1]%N.
+Proof. vm_compute. repeat split. Qed.
